@@ -1,18 +1,18 @@
 package checks
 
 import (
-	"verifh/refcodec"
-	"github.com/zishang520/engine.io/v2/transports"
-	"sync/atomic"
 	crand "crypto/rand"
 	"fmt"
+	"github.com/zishang520/engine.io/v2/transports"
 	"io"
 	"math/rand/v2"
 	"net/http/httptest"
 	"strings"
 	"sync"
+	"sync/atomic"
 	"testing"
 	"time"
+	"verifh/refcodec"
 
 	"github.com/zishang520/engine.io/v2/config"
 	"github.com/zishang520/engine.io/v2/engine"
@@ -296,10 +296,106 @@ func registryChurn(r *rep.Report, bursts int) {
 			r.Violationf("c04-count-drift", map[string]any{"lane": "concurrent handshake/close churn"}, "churn burst %d: %d sessions are open, table has %d entries, count %d", b, n, eng.Clients().Len(), eng.ClientsCount())
 			return
 		}
+		// a wave of handshakes only, then every session closed at the same moment: the last
+		// writer of the count is one of many concurrent ones
+		var all []engine.Socket
 		for _, s := range live {
-			s.Close(true)
+			all = append(all, s)
 		}
+		var amu sync.Mutex
+		var wg2 sync.WaitGroup
+		for g := 0; g < 32; g++ {
+			wg2.Add(1)
+			go func() {
+				defer wg2.Done()
+				for i := 0; i < 8; i++ {
+					rec := httptest.NewRecorder()
+					eng.ServeHTTP(rec, httptest.NewRequest("GET", "http://h/engine.io/?EIO=4&transport=polling", nil))
+					body := rec.Body.String()
+					if k := strings.Index(body, `"sid":"`); k >= 0 {
+						sid := body[k+7:]
+						sid = sid[:strings.Index(sid, `"`)]
+						if s, ok := eng.Clients().Load(sid); ok {
+							amu.Lock()
+							all = append(all, s)
+							amu.Unlock()
+						}
+					}
+				}
+			}()
+		}
+		wg2.Wait()
 		time.Sleep(5 * time.Millisecond)
+		if eng.Clients().Len() != len(all) || eng.ClientsCount() != uint64(len(all)) {
+			r.Violationf("c04-count-drift", map[string]any{"lane": "wave of concurrent handshakes"}, "churn burst %d: %d sessions are open after a wave of concurrent handshakes, table has %d entries, count %d", b, len(all), eng.Clients().Len(), eng.ClientsCount())
+			return
+		}
+		begin := make(chan struct{})
+		var wg3 sync.WaitGroup
+		for _, s := range all {
+			wg3.Add(1)
+			go func(s engine.Socket) {
+				defer wg3.Done()
+				<-begin
+				s.Close(true)
+			}(s)
+		}
+		close(begin)
+		wg3.Wait()
+		time.Sleep(5 * time.Millisecond)
+		r.Obs("churn_sessions_closed_at_one_moment", int64(len(all)))
+		if eng.Clients().Len() != 0 || eng.ClientsCount() != 0 {
+			r.Violationf("c04-count-drift", map[string]any{"lane": "all sessions closed at the same moment"}, "churn burst %d: %d sessions closed at the same moment, all closed now; table has %d entries, count %d", b, len(all), eng.Clients().Len(), eng.ClientsCount())
+			return
+		}
+	}
+	// many medium waves on a fresh server each: 16-24 sessions closed at the same moment.  (Measured
+	// against a count that is re-derived from the table size after each change: the last writer of
+	// the count overlaps with its predecessor in about 3 % of such waves, far more often per second
+	// than with waves of 2-4 or of hundreds of sessions.)
+	for wv := 0; wv < 75*bursts; wv++ {
+		eng := engine.NewServer(so)
+		k := 16 + (wv%3)*4
+		var ss []engine.Socket
+		for i := 0; i < k; i++ {
+			rec := httptest.NewRecorder()
+			eng.ServeHTTP(rec, httptest.NewRequest("GET", "http://h/engine.io/?EIO=4&transport=polling", nil))
+			body := rec.Body.String()
+			if j := strings.Index(body, `"sid":"`); j >= 0 {
+				sid := body[j+7:]
+				sid = sid[:strings.Index(sid, `"`)]
+				if s, ok := eng.Clients().Load(sid); ok {
+					ss = append(ss, s)
+				}
+			}
+		}
+		if eng.ClientsCount() != uint64(len(ss)) || eng.Clients().Len() != len(ss) {
+			r.Violationf("c04-count-drift", map[string]any{"lane": "medium waves"}, "%d sequential handshakes on a new server: count %d, table %d", len(ss), eng.ClientsCount(), eng.Clients().Len())
+			eng.Close()
+			return
+		}
+		begin := make(chan struct{})
+		var wg4 sync.WaitGroup
+		for _, s := range ss {
+			wg4.Add(1)
+			go func(s engine.Socket) {
+				defer wg4.Done()
+				<-begin
+				s.Close(true)
+			}(s)
+		}
+		close(begin)
+		wg4.Wait()
+		for i := 0; i < 100 && eng.Clients().Len() != 0; i++ {
+			time.Sleep(100 * time.Microsecond)
+		}
+		r.Obs("churn_medium_waves", 1)
+		if eng.Clients().Len() != 0 || eng.ClientsCount() != 0 {
+			r.Violationf("c04-count-drift", map[string]any{"lane": "waves of sessions closed at the same moment on a new server"}, "%d sessions closed at the same moment, all closed now; table has %d entries, count %d", len(ss), eng.Clients().Len(), eng.ClientsCount())
+			eng.Close()
+			return
+		}
+		eng.Close()
 	}
 	r.Case("registry-churn", true)
 }
